@@ -21,7 +21,7 @@ CHECKS['C20'] = dict(
         quick=[dict(tu='c20_raster', group='line', bounds=dict(N=8, cap=64), shards=6),
                dict(tu='c20_raster', group='circle', bounds=dict(R=64), shards=2),
                dict(tu='c20_raster', group='ellipse', bounds=dict(A=32), shards=2)],
-        thorough=[dict(tu='c20_raster', group='line', bounds=dict(N=20, cap=64), shards=24),
+        thorough=[dict(tu='c20_raster', group='line', bounds=dict(N=20, cap=16), shards=24),
                   dict(tu='c20_raster', group='circle', bounds=dict(R=1024), shards=12),
                   dict(tu='c20_raster', group='ellipse', bounds=dict(A=160), shards=12)]),
     witnesses_required=dict(all=['line_octant_0', 'line_octant_1', 'line_octant_2', 'line_octant_3', 'line_octant_4',
